@@ -462,7 +462,7 @@ Definition tx_rank (p : tpc) : nat :=
   match p with
   | SEL | TDone => 0
   | TFail | T1 => 1
-  | X9 | S4 => 2 | X8 | S3 => 3 | X7 | S2 => 4 | X6 | S1 => 5 | XH | T0 => 6 | XHL | X5 => 7
+  | X9 | S4 => 2 | X8 | S3 => 3 | X7 | S2 => 4 | X6 | S1 => 5 | XHU | T0 => 6 | XHL | X5 => 7
   | X4 => 8 | X3 => 9 | X2 => 10 | X1 => 11
   end.
 
@@ -471,7 +471,7 @@ Definition tx_rank (p : tpc) : nat :=
     back in SEL (frame transmitted) or Done (error) after at most 11 own steps plus the hook body *)
 Theorem own_step_decreases_rank s e s' t x :
   step_fn s e = Some s' -> th s t = TTx x -> actor e = Some t -> t_pc x <> SEL ->
-  (forall m v, e <> Mutate t m v) -> (t_pc x = XH -> e <> Lock t) ->
+  (forall m v, e <> Mutate t m v) -> (t_pc x = XHU -> e <> Lock t) ->
   exists x', th s' t = TTx x' /\ tx_rank (t_pc x') < tx_rank (t_pc x).
 Proof.
   intros H Ht Ha Hsel Hmut Hlock.
